@@ -1,4 +1,5 @@
 import QeepProofs.Transpose
+import QeepProofs.MatMul
 /-!
 # C04 — MatMul, Dot and Transpose implement batched linear algebra for every shape
 
@@ -106,6 +107,46 @@ theorem vTranspose_total (t : Tensor α) (hwf : t.WF) :
 /-- non-vacuity: a [2,3] tensor -/
 example : (⟨[2, 3], [1, 2, 3, 4, 5, 6]⟩ : Tensor Nat).WF ∧
     (⟨[2, 3], [1, 2, 3, 4, 5, 6]⟩ : Tensor Nat).transposeRaw = some ⟨[3, 2], [1, 4, 2, 5, 3, 6]⟩ := by decide
+
+end C04
+end Qeep
+
+namespace Qeep
+namespace C04
+variable {α : Type} [Scalar α]
+
+/-- **MatMul multiplies the trailing two dimensions as matrices for every batch index** — for operands whose batch
+    dims are equal (what `broadcastForMatMul` hands to the kernel; the expansion itself is `C03.broadcast_get`), every
+    batch rank and all sizes including 1: no panic, result dims `batch ++ [m, k]`, and
+    `y[b, i, j] = Σ_p A[b, i, p] · B[b, p, j]` (left fold from 0, the order the Go loop uses). -/
+theorem matmul_get (bd : List Nat) (m n k : Nat) (d1 d2 : List α)
+    (hbd : ∀ d ∈ bd, 0 < d) (hm : 0 < m) (hn : 0 < n) (hk : 0 < k)
+    (h1 : d1.length = prod (bd ++ [m, n])) (h2 : d2.length = prod (bd ++ [n, k]))
+    (A B : List Nat → Nat → Nat → α)
+    (hA : ∀ pre i p, Valid bd pre → i < m → p < n → (⟨bd ++ [m, n], d1⟩ : Tensor α).at? (pre ++ [i, p]) = some (A pre i p))
+    (hB : ∀ pre p j, Valid bd pre → p < n → j < k → (⟨bd ++ [n, k], d2⟩ : Tensor α).at? (pre ++ [p, j]) = some (B pre p j)) :
+    ∃ data, (⟨bd ++ [m, n], d1⟩ : Tensor α).matMulRaw ⟨bd ++ [n, k], d2⟩ = some ⟨bd ++ [m, k], data⟩ ∧
+      data.length = prod (bd ++ [m, k]) ∧
+      ∀ pre i j, Valid bd pre → i < m → j < k →
+        (⟨bd ++ [m, k], data⟩ : Tensor α).at? (pre ++ [i, j]) =
+          some ((List.range n).foldl (fun s p => Scalar.add s (Scalar.mul (A pre i p) (B pre p j))) Scalar.zero) :=
+  matMulRaw_spec bd m n k d1 d2 hbd hm hn hk h1 h2 A B hA hB
+
+/-- **Dot contracts the last dimension**: `y[b] = Σ_p a[b, p] · b[b, p]` for every leading shape -/
+theorem dot_get (bd : List Nat) (n : Nat) (d1 d2 : List α) (hbd : ∀ d ∈ bd, 0 < d) (hn : 0 < n)
+    (h1 : d1.length = prod (bd ++ [n])) (h2 : d2.length = prod (bd ++ [n]))
+    (A B : List Nat → Nat → α)
+    (hA : ∀ pre p, Valid bd pre → p < n → (⟨bd ++ [n], d1⟩ : Tensor α).at? (pre ++ [p]) = some (A pre p))
+    (hB : ∀ pre p, Valid bd pre → p < n → (⟨bd ++ [n], d2⟩ : Tensor α).at? (pre ++ [p]) = some (B pre p)) :
+    ∃ data, (⟨bd ++ [n], d1⟩ : Tensor α).dotRaw ⟨bd ++ [n], d2⟩ = some ⟨bd, data⟩ ∧ data.length = prod bd ∧
+      ∀ pre, Valid bd pre →
+        (⟨bd, data⟩ : Tensor α).at? pre =
+          some ((List.range n).foldl (fun s p => Scalar.add s (Scalar.mul (A pre p) (B pre p))) Scalar.zero) :=
+  dotRaw_spec bd n d1 d2 hbd hn h1 h2 A B hA hB
+
+/-- non-vacuity (kernel-checked on `Int`): a batched product with a size-1 batch dimension expanded -/
+example : vMatMul (⟨[2, 1, 2], [1, 2, 3, 4]⟩ : Tensor Int) ⟨[1, 2, 2], [1, 0, 0, 1]⟩ = .ok ⟨[2, 1, 2], [1, 2, 3, 4]⟩ := by
+  decide
 
 end C04
 end Qeep
